@@ -14,6 +14,9 @@ CLAIMS["C04"] = ("dataflow inventory of request attributes read by the auth guar
 CLAIMS["C17"] = ("closed-world ownership of jwx verification primitives + must-pass-through (one-signature, allow-list, key source) per consumer + constant allow-list tables under both build-tag sets",
   "Static decision that signed tokens are verified only in vetted consumers, each requiring exactly one signature, an allow-listed asymmetric algorithm (or key-derived algorithm) and a key from the protocol's source. Exhaustive over the current source; necessary structural conditions.",
   "Trusts go/ssa and the jwx library's verification; OpenID-configuration metadata JWT and PKI denylist are listed owners outside the property's token list.")
+CLAIMS["C02"] = ("must-pass-through on the two token flows and the code-minting handler (per-presentation loops), argument provenance, ownership of token/code stores, reserved-claim table vs response struct tags",
+  "Static decision that access tokens and authorization codes are issued only after every listed presentation/PKCE/nonce check passed, from request/session-bound arguments, and that introspection is built from the stored token with credential-derived claims unable to override named fields. Exhaustive over the current source; necessary structural conditions.",
+  "Trusts go/ssa; verifier and PEX semantics are C01/C12; single-use atomicity is C05.")
 PENDING = {}
 
 def main():
